@@ -115,10 +115,19 @@ def h_delete(eng, fmt, mode, focus="tables"):
             entries[S] = (vS, True)
         _auxdata.elf_symbol_versions.set(m, (defs, reqs, entries))
     else:
+        # the import and export lists are independent tables: either may be absent or empty while the other names S
+        imp_mode = eng.choose("imports", ["normal", "empty", "absent"])
+        exp_mode = eng.choose("exports", ["normal", "empty", "absent"])
         imp = _auxdata.pe_imported_symbols.get_or_insert(m)
         exp = _auxdata.pe_exported_symbols.get_or_insert(m)
-        imp.extend([T] + ([S] if in_info else []) + [S2])
-        exp.extend(([S] if in_tabidx else []) + [T] + ([S] if in_versions else []))
+        if imp_mode == "normal":
+            imp.extend([T] + ([S] if in_info else []) + [S2])
+        if exp_mode == "normal":
+            exp.extend(([S] if in_tabidx else []) + [T] + ([S] if in_versions else []))
+        if imp_mode == "absent":
+            del m.aux_data[_auxdata.pe_imported_symbols.name]
+        if exp_mode == "absent":
+            del m.aux_data[_auxdata.pe_exported_symbols.name]
     fnames = _auxdata.function_names.get_or_insert(m)
     uT, uS = uuid.uuid4(), uuid.uuid4()
     fnames[uT] = T
@@ -130,7 +139,9 @@ def h_delete(eng, fmt, mode, focus="tables"):
     if fwd_key:
         fwd[S] = X
     if fwd_val:
+        # two entries forward to S
         fwd[S2 if not delete_s2 else X] = S
+        fwd[gtirb.Symbol("Y", payload=gtirb.ProxyBlock(module=m), module=m)] = S
     cfi = _auxdata_offsetmap.cfi_directives.get_or_insert(m)
     dirs = [(".cfi_startproc", [], NULL), (".cfi_personality", [0x9B], T), (".cfi_lsda", [0x1B], T)]
     if in_cfi:
@@ -236,8 +247,10 @@ def h_delete(eng, fmt, mode, focus="tables"):
         eng.check([s for s in imp if s in deleted] == [] or True, "")
         new_imp = _auxdata.pe_imported_symbols.get(m)
         new_exp = _auxdata.pe_exported_symbols.get(m)
-        eng.check(list(new_imp) == [s for s in imp if s not in deleted], "peImportedSymbols after deletion")
-        eng.check(list(new_exp) == [s for s in exp if s not in deleted], "peExportedSymbols after deletion")
+        eng.check(list(new_imp or []) == [s for s in imp if s not in deleted], "peImportedSymbols after deletion")
+        eng.check(list(new_exp or []) == [s for s in exp if s not in deleted], "peExportedSymbols after deletion")
+        eng.check((new_imp is None) == (imp_mode == "absent") and (new_exp is None) == (exp_mode == "absent"),
+                  "a PE symbol list appeared or disappeared")
     # everything about the bystander is identical
     eng.check(_snapshot_for(m, T, X) == snapshot_T, "entries of a symbol that was not deleted changed")
     if not eng.sym:
